@@ -200,6 +200,11 @@ func (vm *VirtualMachine) runCodeInternal(ctx context.Context, codeToRun *compil
 		vm.resetForNewCode()
 	}
 
+	// Top-level code always starts with an empty operand stack. Without this,
+	// the result of the previous Run (or whatever a failed run left behind)
+	// would stay on the stack, and a long REPL session would overflow it.
+	vm.clearStack()
+
 	// Load the code to run - unified logic for both paths
 	var codeObj *code
 
@@ -235,6 +240,14 @@ func (vm *VirtualMachine) runCodeInternal(ctx context.Context, codeToRun *compil
 
 	// Run the entrypoint until completion
 	return vm.eval(vm.initContext(ctx))
+}
+
+// clearStack empties the operand stack.
+func (vm *VirtualMachine) clearStack() {
+	for i := 0; i <= vm.sp && i < MaxStackDepth; i++ {
+		vm.stack[i] = nil
+	}
+	vm.sp = -1
 }
 
 // resetForNewCode resets the VM state for running a new code object
